@@ -6,6 +6,7 @@ import (
 	"math/rand/v2"
 	"os"
 	"path/filepath"
+	"reflect"
 	"sort"
 	"strings"
 
@@ -81,7 +82,7 @@ func runInput(c *corr.Ctx, specs []*cu.Spec, raw []byte, name string) bool {
 				runPts(c, s, &in, name)
 				return true
 			}
-		case "cap-size", "cap-peak":
+		case "cap-size", "cap-peak", "cap-empty-fragments":
 			capCases(c, s)
 			return true
 		case "fault": // a fault stream of the generic driver: same frames, same faults, fixed base timestamp
@@ -254,6 +255,108 @@ func invalidCases(c *corr.Ctx, s *cu.Spec) {
 	}
 }
 
+// ---- whole-state correspondence ------------------------------------------------------------------
+
+// stateStr renders every field of the real decoder struct (by reflection, unexported fields
+// included) the way the Lean `dstate` op renders the model state.
+func stateStr(s *cu.Spec, dec cu.Decoder) string {
+	v := reflect.ValueOf(dec.State()).Elem()
+	b := func(n string) string { return corr.B(v.FieldByName(n).Bool()) }
+	i := func(n string) int64 { return v.FieldByName(n).Int() }
+	l := func(n string) int { return v.FieldByName(n).Len() }
+	if s == H264 {
+		return fmt.Sprintf("first=%s nfrag=%d fsize=%d next=%d annexb=%s nfb=%d fblen=%d fbsize=%d fbts=%d",
+			b("firstPacketReceived"), l("fragments"), i("fragmentsSize"), v.FieldByName("fragmentNextSeqNum").Uint(),
+			b("annexBMode"), l("frameBuffer"), i("frameBufferLen"), i("frameBufferSize"), v.FieldByName("frameBufferTimestamp").Uint())
+	}
+	return fmt.Sprintf("first=%s nfrag=%d fsize=%d next=%d nfb=%d fblen=%d fbsize=%d",
+		b("firstPacketReceived"), l("fragments"), i("fragmentsSize"), v.FieldByName("fragmentNextSeqNum").Uint(),
+		l("frameBuffer"), i("frameBufferLen"), i("frameBufferSize"))
+}
+
+// stateCases: hostile and faulted streams where after EVERY Decode call the whole decoder state
+// (flags, counters, expected sequence number, number of stored fragments / NALUs, buffered
+// timestamp) is compared with the model state — not only the return value and the retained bytes.
+func stateCases(c *corr.Ctx, s *cu.Spec) {
+	fm := famOf(s)
+	rg := c.Rng
+	n := c.N(150, 15000)
+	for i := 0; i < n; i++ {
+		p := cu.EncParams{PT: 96, SSRC: 9, Seq0: uint16(rg.IntN(65536)), Max: fm.pickMax(rg)}
+		inst, err := s.New(rg, p)
+		if err != nil {
+			continue
+		}
+		// material: the real encoder's packets of a few valid frames …
+		var base []*rtp.Packet
+		ts := rg.Uint32()
+		for k := 0; k < 1+rg.IntN(3); k++ {
+			if ps, err := inst.Enc.Encode(fm.genFrame(rg, p.Max)); err == nil {
+				for _, q := range ps {
+					q = q.Clone()
+					q.Timestamp = ts
+					base = append(base, q)
+				}
+			}
+			ts += 3000
+		}
+		// … mixed with grammar-aware hostile payloads, header-only fragments, flag / seq / ts mutations
+		var pkts []*rtp.Packet
+		seq := uint16(rg.IntN(65536))
+		for k := 0; k < 10+rg.IntN(40); k++ {
+			var q *rtp.Packet
+			switch rg.IntN(5) {
+			case 0, 1:
+				if len(base) > 0 {
+					q = base[rg.IntN(len(base))].Clone()
+					if rg.IntN(3) == 0 {
+						q.SequenceNumber = seq
+					}
+					if rg.IntN(6) == 0 && len(q.Payload) > fm.fuHdr {
+						q.Payload = q.Payload[:fm.fuHdr] // header-only
+					}
+				}
+			case 2:
+				q = &rtp.Packet{Header: rtp.Header{SequenceNumber: seq, Timestamp: uint32(rg.IntN(3)) * 3000, Marker: rg.IntN(4) == 0}, Payload: s.Hostile(rg)}
+			}
+			if q == nil {
+				pl := s.Hostile(rg)
+				q = &rtp.Packet{Header: rtp.Header{SequenceNumber: seq, Timestamp: ts, Marker: rg.IntN(3) == 0}, Payload: pl}
+			}
+			seq = q.SequenceNumber + 1
+			pkts = append(pkts, q)
+		}
+		cs := corr.Case{Name: fmt.Sprintf("%s-state-%d", s.Name, i), Nontrivial: true}
+		cs.Ops = append(cs.Ops, s.Name+" dinit")
+		cs.Impl = append(cs.Impl, "ok")
+		dec := inst.NewDec()
+		for _, q := range pkts {
+			var out cu.Frame
+			var derr error
+			func() {
+				defer func() {
+					if x := recover(); x != nil {
+						derr = fmt.Errorf("panic: %v", x)
+						c.Violate(corr.Violation{Property: "C08", Clause: "decoding never panics", Key: s.Name + "-dec-panic", Where: "pkg/format/rtp" + s.Name,
+							Input: &cu.HostileInput{Mode: "hostile", Codec: s.Name, Pkts: []string{pktStr(q)}}, Detail: fmt.Sprintf("Decode panicked: %v", x)})
+					}
+				}()
+				out, derr = dec.Decode(q)
+			}()
+			res := "ok " + unitsStr(out)
+			if derr != nil {
+				res = s.Classify(derr)
+			}
+			res += fmt.Sprintf(" ret %d", cu.Retained(dec.State()))
+			cs.Ops = append(cs.Ops, fmt.Sprintf("%s dec %d %d %s %s", s.Name, q.SequenceNumber, q.Timestamp, corr.B(q.Marker), corr.Hex(q.Payload)))
+			cs.Impl = append(cs.Impl, res)
+			cs.Ops = append(cs.Ops, s.Name+" dstate")
+			cs.Impl = append(cs.Impl, stateStr(s, dec))
+		}
+		c.Add(cs)
+	}
+}
+
 // ---- NALU-count and size caps (C08 / C03 boundary) ----------------------------------------------
 
 func capCases(c *corr.Ctx, s *cu.Spec) {
@@ -323,6 +426,38 @@ func capCases(c *corr.Ctx, s *cu.Spec) {
 				Where: "pkg/format/rtp" + s.Name, Input: in, Detail: fmt.Sprintf("retained %d > %d", maxRet, s.RetainBound)})
 		}
 		c.CountOnly(fmt.Sprintf("%s-cap-size-%d", s.Name, extra), true)
+	}
+	// growth by fragments WITHOUT data: a start fragment, then header-only continuations with
+	// consecutive sequence numbers never reach the byte cap; the decoder must not keep them
+	{
+		inst, err := s.New(rg, cu.EncParams{PT: 96, SSRC: 5, Seq0: 1, Max: 100})
+		if err == nil {
+			start, cont := []byte{0x7c, 0x85, 0x01}, []byte{0x7c, 0x05}
+			if fm == famH265 {
+				start, cont = []byte{0x62, 0x01, 0x81, 0x01}, []byte{0x62, 0x01, 0x01}
+			}
+			dec := inst.NewDec()
+			n := c.N(20000, 2000000)
+			seq := uint16(65000)
+			dec.Decode(&rtp.Packet{Header: rtp.Header{SequenceNumber: seq}, Payload: start})
+			worst := 0
+			for i := 0; i < n; i++ {
+				seq++
+				dec.Decode(&rtp.Packet{Header: rtp.Header{SequenceNumber: seq}, Payload: cont})
+				if i%997 == 0 || i == n-1 {
+					if d := cu.RetainedSlices(dec.State()) - cu.Retained(dec.State()); d > worst {
+						worst = d
+					}
+				}
+			}
+			c.DistN(s.Name+".header-only-fragments-slices-minus-bytes", worst)
+			if worst > 256 {
+				c.Violate(corr.Violation{Property: "C08", Clause: "retained memory stays below the format's bound (maximum frame size plus a packet)", Key: s.Name + "-unbounded-slices",
+					Where: "pkg/format/rtp" + s.Name, Input: map[string]any{"mode": "cap-empty-fragments", "codec": s.Name, "start_hex": corr.Hex(start), "continuation_hex": corr.Hex(cont), "packets": n},
+					Detail: fmt.Sprintf("start fragment + %d continuation fragments without data: the decoder holds %d more slices than bytes", n, worst)})
+			}
+			c.CountOnly(s.Name+"-cap-empty-fragments", true)
+		}
 	}
 	// peak retention: a complete NALU just below the cap without marker (sits in the frame buffer),
 	// then a second one being reassembled: both buffers are full at the same time.
@@ -473,6 +608,9 @@ func Run(c *corr.Ctx) {
 		}
 		if c.Want("C07") {
 			faultSweep(c, s)
+		}
+		if c.Want("C07") || c.Want("C08") {
+			stateCases(c, s)
 		}
 		if c.Want("C08") {
 			ptsCases(c, s)
